@@ -86,8 +86,116 @@ class C01(DevProp):
         return cases
 
 
+class C01A(DevProp):
+    """histories with key-emulating axes: quiescent = no key down and every such axis physically at rest"""
+    pid = "C01"
+    imports = "Model.AnalogF Model.AnalogSpec Run.AnalogRun"
+    case_type = "c01acase"
+    fail_term = "c01a_failures k"
+    mis_term = "c01a_mismatch k"
+    nontrivial_term = None
+    monitor_name = "C01 monitor with key-emulating axes (nothing sounding whenever no key is down and every key-emulating axis is physically below 49 % of travel; nothing after clean-up)"
+    correspondence_name = "C01 view (note messages of axis events and State().Notes)"
+    rule = C01.rule
+
+    def emit(self, case, res):
+        import agen
+        ax = clist(["(Build_c1axis %d %s%%Z %s%%Z %s %s)" % (x["code"], cZ(x["mn"]), cZ(x["mx"]), cbool(x["dzc"]), agen.fbits(x["dzbits"])) for x in case["axes"]])
+        return "(Build_c01acase %s %s)" % (ax, agen.emit_acase(case, res))
+
+    def evaluate(self, cases, results, tag):
+        import math, devrun
+        evals = [("FAIL", "enum_fail (fun k => %s) 0 cases" % self.fail_term),
+                 ("MIS", "enum_some (fun k => %s) 0 cases" % self.mis_term),
+                 ("NT", "enum_true (fun k => false) 0 cases")]
+        n = max(3, min(20, math.ceil(len(cases) / 8)))
+        return devrun.eval_shards(cases, results, evals, imports=self.imports, shard=n, emit=self.emit, case_type=self.case_type, tag=tag + "a")
+
+    def nontrivial_py(self, case, res):
+        return any(e["t"] == "a" for e in case["events"]) and any(st["midi"] for st in res["steps"])
+
+    def known_signature(self, case, res):
+        cfg = case["cfg"]
+        keysim = {}
+        for m in cfg["mappings"]:
+            for an in m["analog"]:
+                if an["type"] == "key":
+                    keysim.setdefault((an["sub"], an["code"]), []).append(an)
+        unstable = any(len(v) != len(cfg["mappings"]) or any(x != v[0] for x in v) for v in keysim.values())
+        acts = {a_["code"]: a_["action"] for a_ in cfg["actions"]}
+        switched = any(e["t"] == "k" and e["val"] == 1 and acts.get(e["code"]) in ("mapping_up", "mapping_down") for e in case["events"])
+        return "K2-keysim-mapping-switch" if (unstable and switched) else None
+
+    def gen(self, rng, tier):
+        import agen
+        from agen import bits
+        cases = []
+        ACT = {"octave_up": 59, "octave_down": 60, "semitone_up": 61, "channel_up": 63, "channel_down": 64, "mapping_up": 65, "mapping_down": 66, "panic": 67}
+
+        def a(code, val):
+            return {"t": "a", "sub": "", "code": code, "val": val}
+
+        def mk(stable, n_ev, tag):
+            kinds = [rng.choice([(-128, 127), (-32768, 32767), (0, 255), (-1, 1)]) for _ in range(rng.choice([1, 2]))]
+            analogs, absl, axes = [], [], []
+            dz = rng.choice([0.0, 0.0, 0.1])
+            for i, (mn, mx) in enumerate(kinds):
+                code = [agen.ABS_X, agen.ABS_HAT0X][i]
+                analogs.append(agen.analog(code, "key", note=rng.choice([40, 60, 90]), noteneg=rng.choice([41, 61]), off=rng.choice([0, 3]), offneg=rng.choice([0, 5]),
+                                           bidi=rng.random() < 0.8, flip=False))
+                absl.append({"code": code, "min": mn, "max": mx})
+                axes.append({"code": code, "mn": mn, "mx": mx, "dzc": False, "dzbits": bits(dz)})
+            keys = [{"sub": "", "code": 16 + j, "note": rng.choice([60, 61, 72]), "off": 0} for j in range(3)]
+            cfg = agen.base_cfg(analogs, defdz=[{"sub": "", "bits": str(bits(dz))}], keys=keys, actions=[{"code": c, "action": n_} for n_, c in ACT.items()],
+                                cmode=rng.choice(devgen.CMODES), n_maps=2, channel=rng.randint(1, 16))
+            if not stable:
+                cfg["mappings"][1]["analog"] = []
+            ev, down = [], set()
+            for _ in range(n_ev):
+                r = rng.random()
+                if r < 0.45:
+                    x = rng.choice(axes)
+                    mn, mx = x["mn"], x["mx"]
+                    ev.append(a(x["code"], rng.choice([mn, mx, 0 if mn < 0 else (mn + mx) // 2, int(mx * 0.8), int(mn * 0.8) if mn < 0 else mn + (mx - mn) // 10,
+                                                       int(mx * 0.3) if mn < 0 else (mn + mx) // 2 + (mx - mn) // 10])))
+                elif r < 0.7:
+                    act = rng.choice(list(ACT.values()))
+                    ev += [k(act, 1), k(act, 0)]
+                else:
+                    code = 16 + rng.randrange(3)
+                    if code in down:
+                        down.discard(code)
+                        ev.append(k(code, 0))
+                    else:
+                        down.add(code)
+                        ev.append(k(code, 1))
+            for code in sorted(down):
+                ev.append(k(code, 0))
+            for x in axes:   # back to rest
+                ev.append(a(x["code"], 0 if x["mn"] < 0 else (x["mn"] + x["mx"]) // 2))
+            return {"cfg": cfg, "abs": absl, "events": ev, "axes": axes, "tag": tag}
+
+        # K2 corpus witness: deflect, switch to a mapping that does not emulate keys on the axis, return to centre
+        c = mk(False, 0, "corpus-K2")
+        x = c["axes"][0]
+        c["events"] = [a(x["code"], x["mx"]), k(65, 1), k(65, 0), a(x["code"], 0 if x["mn"] < 0 else (x["mn"] + x["mx"]) // 2)]
+        cases.append(c)
+        for i in range(60 if tier == "quick" else 1500):
+            cases.append(mk(True, rng.randint(15, 50), "keysim-random"))
+        return cases
+
+
 def run(run_):
     C01().run(run_)
+    if not run_.violations:
+        cov1 = dict(run_.coverage)
+        C01A().run(run_)
+        cov2 = run_.coverage
+        for k_ in ("evaluations", "distinct_nontrivial", "monitor_failures", "view_mismatches", "crashes"):
+            cov2[k_] = cov1.get(k_, 0) + cov2.get(k_, 0)
+        cov2["generator_distribution"] = {"key_histories": cov1.get("generator_distribution"), "axis_histories": cov2.get("generator_distribution")}
+        cov2["samples"] = cov1.get("samples", []) + cov2.get("samples", [])[:1]
+        cov2["correspondence_obligations"] = 4
 
 
 def replay(run_, data):
